@@ -110,6 +110,12 @@ func c02Run(c *ev.Ctx, k c02Case) {
 			}
 			return
 		}
+		if k.KeyDir == "nearmiss-names" && len(e.ca.Reqs) == caBefore {
+			// only OTHER users (near misses of this login name) have the key registered: the request is refused, nothing to
+			// compare (whether it may be accepted is C01's subject); if a request IS signed, its content is judged as usual
+			c.Outcome("no-key-file-of-its-own/" + errType(err))
+			return
+		}
 		wantID, configured := want[k.Algo]
 		if !configured {
 			c.Outcome("unconfigured-algo/" + errType(err))
@@ -192,7 +198,7 @@ func c02Run(c *ev.Ctx, k c02Case) {
 
 func checkC02(c *ev.Ctx) {
 	defer cleanupScratch()
-	c.Rule("real gensign.Run + regular.Handler, honest agent, recording CA; the signing request received by the CA is compared with a reference record built from server-side inputs: strings {plain, JSON metacharacters, <>&, non-ASCII, 200 chars, empty, literal JSON/HTML escape texts (\\u0026, \\\\u003c, &lt;, \\n), U+2028/2029, control characters} for login/user/host/IP/transaction id varied one field at a time and jointly; 10 login names that interact with the key-file lookup ('.pub' suffixes, dots, case) x directory layouts {<name>.pub, bare <name>, both} x CA algorithm{0,1,2,3,4,99}; handler configurations: validity{1,3600,43200,315360000,2^32+43200} x every non-colliding subset (size<=3; thorough <=4) of key_identifiers keys {rsa,RSA,Ecdsa,ed25519,default,unknown,1,3,99} x algorithm; two consecutive requests per case; client-declared signature algorithm 0..17 x touch-to-SSH x requested algorithm {omitted,1,3,4} x 3 slot configurations; every sequence of 1..4 requests over 5 algorithms (3 configured, 2 not) on one long-lived handler. non-trivial = request signed and compared; distinct by case")
+	c.Rule("real gensign.Run + regular.Handler, honest agent, recording CA; the signing request received by the CA is compared with a reference record built from server-side inputs: strings {plain, JSON metacharacters, <>&, non-ASCII, 200 chars, empty, literal JSON/HTML escape texts (\\u0026, \\\\u003c, &lt;, \\n), U+2028/2029, control characters} for login/user/host/IP/transaction id varied one field at a time and jointly; 10 login names that interact with the key-file lookup ('.pub' suffixes, dots, case) x directory layouts {<name>.pub, bare <name>, both} x CA algorithm{0,1,2,3,4,99}; 5 login names for which only near-miss key files of other users exist (other case, prefix, suffix); handler configurations: validity{1,3600,43200,315360000,2^32+43200} x every non-colliding subset (size<=3; thorough <=4) of key_identifiers keys {rsa,RSA,Ecdsa,ed25519,default,unknown,1,3,99} x algorithm; two consecutive requests per case; client-declared signature algorithm 0..17 x touch-to-SSH x requested algorithm {omitted,1,3,4} x 3 slot configurations; every sequence of 1..4 requests over 5 algorithms (3 configured, 2 not) on one long-lived handler. non-trivial = request signed and compared; distinct by case")
 	c.Assume("key_identifiers names are normalised case-insensitively or numerically (reference table in the harness)")
 	if c.ReplayCase != nil {
 		var k c02Case
@@ -336,6 +342,14 @@ func checkC02(c *ev.Ctx) {
 			c02Run(c, k)
 			n++
 		}
+	}
+	// login names for which only near-miss files exist (another case, a prefix, ...): normally refused; whatever an
+	// implementation does with the near-miss files, a signed request names the server-side login name
+	for _, ln := range []string{"Alice", "ALICE", "aLiCe", "Élodie", "alice"} {
+		k := base
+		k.LogName, k.KeyDir, k.ReqUser = ln, "nearmiss-names", "someone-else"
+		c02Run(c, k)
+		n++
 	}
 	c.Set("cases", n+1)
 }
